@@ -61,6 +61,8 @@ def soergel(fp1, fp2):
         return tanimoto(fp1, fp2)
 
     counts_diff = diff_counts_dict(fp1, fp2)
+    if len(counts_diff) == 0:
+        return 0.0
     temp = np.asarray(
         [
             (abs(counts_diff[x]), max(fp1.get_count(x), fp2.get_count(x)))
@@ -68,7 +70,10 @@ def soergel(fp1, fp2):
         ],
         dtype=float,
     ).T
-    soergel = 1 - np.sum(temp[0, :]) / np.sum(temp[1, :])
+    sum_max = np.sum(temp[1, :])
+    if sum_max == 0:
+        return 0.0
+    soergel = 1 - np.sum(temp[0, :]) / sum_max
 
     return soergel
 
